@@ -97,3 +97,13 @@ _p('C06', ['r_edges'],
    'ADTs, each worklist loop of Used::new is evaluated symbolically, and the position must be pushed in every world '
    'compatible with the enum variants on its path; roots are compared with the documented list.',
    not_decided='behavioural equality of the collected module (execution)')
+
+_p('C16', ['r_visit'],
+   'Generated visitors and traversal drivers: for each of the 51 instruction structs the id-typed fields are enumerated '
+   'from the type definitions and the macro-generated Visit/VisitMut dispatch (as it appears after expansion, resolved) '
+   'is evaluated with default hooks; every operand must reach the hook of its kind exactly once. The drivers are checked '
+   'structurally: per-instruction events unconditional and once per iteration, early exits only after saving the '
+   'resumption point, child sequences scheduled for every owner, start/end events once per sequence.',
+   not_decided='program-order of events across nested sequences as a whole (argued from the resumption discipline, not '
+               'executed); absence of recursion is decided by R-NOREC')
+PROPERTIES['C06']['rules'] = ['r_edges', 'r_visit']
